@@ -72,6 +72,15 @@ func (r *Report) Sample(v interface{}) {
 	r.mu.Unlock()
 }
 
+// SampleIfFew guarantees a couple of samples whatever the selection rule of a stage.
+func (r *Report) SampleIfFew(v interface{}) {
+	r.mu.Lock()
+	if len(r.Samples) < 2 {
+		r.Samples = append(r.Samples, v)
+	}
+	r.mu.Unlock()
+}
+
 func (r *Report) AddEval(n int64) { r.mu.Lock(); r.Evaluations += n; r.mu.Unlock() }
 func (r *Report) AddReplayed(n int64) {
 	r.mu.Lock()
